@@ -24,9 +24,11 @@ import (
 	"io"
 	"math/rand/v2"
 	"regexp"
+	"runtime"
 	"slices"
 	"sort"
 	"strings"
+	"sync"
 	"testing"
 	"testing/iotest"
 
@@ -296,6 +298,25 @@ func verifC23Tags(ve *VersionEdit) []string {
 	return t
 }
 
+// verifC23NoCustomRangeKeyTable: a table that Encode writes as tagNewFile5
+// without any custom field (and hence without the custom-field terminator).
+func verifC23NoCustomRangeKeyTable(m *TableMetadata) bool {
+	return m.HasRangeKeys && m.CreationTime == 0 && !m.Virtual && len(m.BlobReferences) == 0 && m.RangeKeyKinds != OnlyRangeKeyUnsetAndDelete
+}
+
+// verifC23KnownTrigger labels edits that contain a state with a known
+// round-trip defect, so that the violation can be matched precisely.
+func verifC23KnownTrigger(ve *VersionEdit) string {
+	for _, nt := range ve.NewTables {
+		if verifC23NoCustomRangeKeyTable(nt.Meta) {
+			return "newfile5-without-custom-fields"
+		}
+	}
+	return ""
+}
+
+var verifC23TriggerSeen = map[string]int{}
+
 // verifC23Catch runs f and converts a panic into a message.
 func verifC23Catch(f func()) (msg string) {
 	defer func() {
@@ -316,7 +337,7 @@ func (p verifC23PlainReader) Read(b []byte) (int, error) { return p.r.Read(b) }
 
 // verifC23CheckRoundTrip checks Decode(Encode(e)) == e for a valid edit and
 // returns the encoding. lookup resolves backings created by earlier edits.
-func verifC23CheckRoundTrip(r *vcommon.Report, ve *VersionEdit, lookup func(i int, n base.DiskFileNum) *TableBacking, what string) (enc []byte, ok bool) {
+func verifC23CheckRoundTrip(r *vcommon.Report, ve *VersionEdit, lookup func(i int, n base.DiskFileNum) *TableBacking, what string, light bool) (enc []byte, ok bool) {
 	want := verifC23CanonEdit(ve)
 	wantDbg := ve.DebugString(base.DefaultFormatter)
 	var buf bytes.Buffer
@@ -328,22 +349,39 @@ func verifC23CheckRoundTrip(r *vcommon.Report, ve *VersionEdit, lookup func(i in
 	}
 	enc = slices.Clone(buf.Bytes())
 	ok = true
+	trigger := verifC23KnownTrigger(ve)
+	if trigger != "" {
+		// Keep the report's violation quota for unlabelled violations.
+		verifC23TriggerSeen[trigger]++
+		r.Count("probe_cases:"+trigger, 1)
+		if verifC23TriggerSeen[trigger] > 2 {
+			var got VersionEdit
+			p := verifC23Catch(func() { err = got.Decode(verifC23NewGuard(enc)) })
+			if p != "" || err != nil || len(func() []string { l, _ := verifC23Diff(want, verifC23CanonEdit(&got)); return l }()) > 0 {
+				r.Count("probe_failures:"+trigger, 1)
+			}
+			return enc, false
+		}
+	}
 	for ri, mk := range []func() io.Reader{
-		func() io.Reader { return bytes.NewReader(enc) },                                // byteReader, used directly
-		func() io.Reader { return verifC23PlainReader{bytes.NewReader(enc)} },           // wrapped in bufio by Decode
-		func() io.Reader { return iotest.OneByteReader(bytes.NewReader(enc)) },          // short reads through bufio/io.ReadFull
+		func() io.Reader { return verifC23NewGuard(enc) },                      // byteReader, used directly (allocation guard, see verifC23Guard)
+		func() io.Reader { return verifC23PlainReader{bytes.NewReader(enc)} },  // wrapped in bufio by Decode
+		func() io.Reader { return iotest.OneByteReader(bytes.NewReader(enc)) }, // short reads through bufio/io.ReadFull
 	} {
+		if light && ri != 0 && ri != 1+len(enc)%2 {
+			continue // sequences: guarded reader plus one of the two bufio paths
+		}
 		var got VersionEdit
 		if p := verifC23Catch(func() { err = got.Decode(mk()) }); p != "" || err != nil {
 			r.Violate("decode-error", fmt.Sprintf("%s: Decode(Encode(e)) failed (reader %d): panic=%q err=%v", what, ri, p, err),
-				map[string]any{"edit": wantDbg, "encoded_hex": hex.EncodeToString(enc)}, map[string]any{"stage": "decode", "reader": ri})
+				map[string]any{"edit": wantDbg, "encoded_hex": hex.EncodeToString(enc)}, map[string]any{"stage": "decode", "reader": ri, "trigger": trigger})
 			return enc, false
 		}
 		gotCanon := verifC23CanonEdit(&got)
 		if lines, fields := verifC23Diff(want, gotCanon); len(lines) > 0 {
 			r.Violate("roundtrip-mismatch", fmt.Sprintf("%s: Decode(Encode(e)) != e (reader %d): %s", what, ri, strings.Join(lines, "; ")),
 				map[string]any{"edit": wantDbg, "encoded_hex": hex.EncodeToString(enc), "want": want, "got": gotCanon},
-				map[string]any{"fields": fields})
+				map[string]any{"fields": fields, "trigger": trigger})
 			ok = false
 			continue
 		}
@@ -410,7 +448,7 @@ func verifC23SeqNum(rng *rand.Rand) base.SeqNum {
 }
 
 // verifC23WildMeta builds a table with arbitrary (valid) field values.
-func verifC23WildMeta(rng *rand.Rand, small bool) (*TableMetadata, base.DiskFileNum) {
+func verifC23WildMeta(rng *rand.Rand, small bool, probe bool) (*TableMetadata, base.DiskFileNum) {
 	cmp := base.DefaultComparer.Compare
 	u64 := func() uint64 {
 		if small {
@@ -491,6 +529,10 @@ func verifC23WildMeta(rng *rand.Rand, small bool) (*TableMetadata, base.DiskFile
 	if nref > 0 {
 		m.BlobReferenceDepth = BlobReferenceDepth(1 + rng.IntN(nref))
 	}
+	if !probe && verifC23NoCustomRangeKeyTable(m) {
+		// See verifC23KnownTrigger: only dedicated probe cases generate this state.
+		m.CreationTime = int64(1 + rng.IntN(1<<30))
+	}
 	if m.Virtual {
 		var pre, suf []byte
 		if rng.IntN(2) == 0 {
@@ -511,7 +553,7 @@ func verifC23WildMeta(rng *rand.Rand, small bool) (*TableMetadata, base.DiskFile
 // verifC23WildEdit generates one valid edit; every encodable field is present
 // with some probability. With small=true all numbers stay below 2^16 (used as
 // fuzz seeds so that the allocation guard rarely fires on unmutated fields).
-func verifC23WildEdit(rng *rand.Rand, small bool) *VersionEdit {
+func verifC23WildEdit(rng *rand.Rand, small bool, probe bool) *VersionEdit {
 	u64 := func() uint64 {
 		if small {
 			return uint64(rng.IntN(1 << 16))
@@ -538,13 +580,13 @@ func verifC23WildEdit(rng *rand.Rand, small bool) *VersionEdit {
 	if p(2) {
 		ve.DeletedTables = map[DeletedTableEntry]*TableMetadata{}
 		for i, n := 0, 1+rng.IntN(4); i < n; i++ {
-			m, _ := verifC23WildMeta(rng, small)
+			m, _ := verifC23WildMeta(rng, small, false)
 			ve.DeletedTables[DeletedTableEntry{Level: rng.IntN(NumLevels), FileNum: m.TableNum}] = m
 		}
 	}
 	if !p(4) {
 		for i, n := 0, 1+rng.IntN(5); i < n; i++ {
-			m, backing := verifC23WildMeta(rng, small)
+			m, backing := verifC23WildMeta(rng, small, probe)
 			ve.NewTables = append(ve.NewTables, NewTableEntry{Level: rng.IntN(NumLevels), Meta: m, BackingFileNum: backing})
 			if m.Virtual && p(2) {
 				ve.CreatedBackingTables = append(ve.CreatedBackingTables, m.TableBacking)
@@ -586,7 +628,7 @@ func verifC23WildEdit(rng *rand.Rand, small bool) *VersionEdit {
 	}
 	if p(3) {
 		for i, n := 0, 1+rng.IntN(3); i < n; i++ {
-			m, _ := verifC23WildMeta(rng, small)
+			m, _ := verifC23WildMeta(rng, small, false)
 			ve.TablesMarkedForCompaction = append(ve.TablesMarkedForCompaction,
 				TableMarkedForCompactionEntry{Level: rng.IntN(NumLevels), TableNum: m.TableNum, Meta: m})
 		}
@@ -599,14 +641,17 @@ func TestVerifC23RoundTrip(t *testing.T) {
 	defer r.Finish(t)
 	r.Rule("roundtrip: one generated valid VersionEdit per case (every encodable field present with some probability, boundary-biased uint64 values, " +
 		"random byte keys, physical/virtual tables with point and/or range bounds); distinct = distinct encoding; non-trivial = at least one tag emitted")
-	n := vcommon.Scale(30000, 600000)
+	n := vcommon.Scale(12000, 400000)
 	r.Cases(n, func(i int, rng *rand.Rand) {
-		ve := verifC23WildEdit(rng, i%5 == 0)
+		// Every 101st case may contain a range-key table without custom fields
+		// (known encoder/decoder asymmetry, see verifC23KnownTrigger); all
+		// other cases never do, so the oracle stays strict for them.
+		ve := verifC23WildEdit(rng, i%5 == 0 || i%101 == 0, i%101 == 0)
 		enc, _ := verifC23CheckRoundTrip(r, ve, func(i int, _ base.DiskFileNum) *TableBacking {
 			// A fresh copy: the decoded edit must not share state with the original.
 			b := ve.NewTables[i].Meta.TableBacking
 			return &TableBacking{DiskFileNum: b.DiskFileNum, Size: b.Size}
-		}, "wild edit")
+		}, "wild edit", false)
 		r.Eval(1)
 		r.Count("roundtrip_edits", 1)
 		r.Count("roundtrip_bytes", int64(len(enc)))
@@ -623,8 +668,6 @@ func TestVerifC23RoundTrip(t *testing.T) {
 	})
 }
 
-var _ = binary.MaxVarintLen64
-var _ = errors.New
 
 // ---------------------------------------------------------------------------
 // (b) consistent edit sequences from a model LSM.
@@ -812,6 +855,9 @@ func (g *verifC23Gen) meta(lo, hi int, o verifC23MetaOpts) (*TableMetadata, bool
 		m.AttachVirtualBacking(o.virtual)
 	} else {
 		m.InitPhysicalBacking()
+	}
+	if verifC23NoCustomRangeKeyTable(m) {
+		m.CreationTime = int64(1 + rng.IntN(1<<31))
 	}
 	l := m.Largest()
 	loose := l.IsExclusiveSentinel() && bytes.Equal(l.UserKey, verifC23K(hi))
@@ -1360,11 +1406,18 @@ func TestVerifC23Replay(t *testing.T) {
 	defer r.Finish(t)
 	r.Rule("replay: one consistent edit sequence (3-30 edits) per case, generated from a model LSM; distinct = distinct concatenated encoding; " +
 		"non-trivial = sequence in which at least one table is both added and deleted and the final version is non-empty")
-	n := vcommon.Scale(3000, 60000)
+	n := vcommon.Scale(2000, 60000)
 	const rcr = 32000
 	r.Cases(n, func(ci int, rng *rand.Rand) {
 		g := verifC23NewGen(rng)
 		nEdits := 3 + rng.IntN(28)
+		// chunk boundaries of path C (chosen up front so that the expensive
+		// canonical form of path A is only rendered where it is compared)
+		chunkEnd := map[int]bool{nEdits: true}
+		for i := 0; i < nEdits; {
+			i = min(nEdits, i+1+rng.IntN(1+rng.IntN(nEdits)))
+			chunkEnd[i] = true
+		}
 		type step struct {
 			ve       *VersionEdit
 			op       string
@@ -1407,7 +1460,7 @@ func TestVerifC23Replay(t *testing.T) {
 					return &TableBacking{DiskFileNum: b.DiskFileNum, Size: b.Size}
 				}
 				return nil
-			}, fmt.Sprintf("sequence edit %d (%s)", ei, op))
+			}, fmt.Sprintf("sequence edit %d (%s)", ei, op), true)
 			r.Count("replay_edits", 1)
 			st := step{ve: ve, op: op, enc: enc}
 			steps = append(steps, st)
@@ -1438,7 +1491,9 @@ func TestVerifC23Replay(t *testing.T) {
 				return
 			}
 			steps[ei].shape = shape
-			steps[ei].canon = verifC23VersionCanon(vA)
+			if chunkEnd[ei+1] {
+				steps[ei].canon = verifC23VersionCanon(vA)
+			}
 			steps[ei].backings = g.backingSet()
 		}
 		last := steps[len(steps)-1]
@@ -1450,7 +1505,7 @@ func TestVerifC23Replay(t *testing.T) {
 
 		decode := func(i int) (*VersionEdit, bool) {
 			ve := &VersionEdit{}
-			if err := ve.Decode(bytes.NewReader(steps[i].enc)); err != nil {
+			if err := ve.Decode(verifC23NewGuard(steps[i].enc)); err != nil {
 				r.Violate("decode-error", fmt.Sprintf("edit %d: %v", i, err), replay(), nil)
 				return nil, false
 			}
@@ -1495,8 +1550,10 @@ func TestVerifC23Replay(t *testing.T) {
 			for l := range bve.DeletedTables {
 				leftover += len(bve.DeletedTables[l])
 			}
-			if leftover > 0 || len(bve.BlobFiles.Deleted) > 0 {
-				r.Violate("replay-leftover", fmt.Sprintf("bulk replay from the empty version left %d deletions / removed backings and %d deleted blob files unresolved", leftover, len(bve.BlobFiles.Deleted)),
+			// (BlobFiles.Deleted may legitimately be non-empty: a replaced blob file
+			// keeps its entry there and Apply/CurrentBlobFileSet.Init ignore it.)
+			if leftover > 0 {
+				r.Violate("replay-leftover", fmt.Sprintf("bulk replay from the empty version left %d table deletions / removed backings unresolved (recovery asserts there are none)", leftover),
 					replay(), map[string]any{"path": "bulk"})
 				return
 			}
@@ -1514,7 +1571,10 @@ func TestVerifC23Replay(t *testing.T) {
 			i := 0
 			nchunks := 0
 			for i < len(steps) {
-				j := min(len(steps), i+1+rng.IntN(1+rng.IntN(len(steps))))
+				j := i + 1
+				for !chunkEnd[j] {
+					j++
+				}
 				bve := BulkVersionEdit{AllAddedTables: all}
 				var err error
 				var nv *Version
@@ -1598,4 +1658,646 @@ func TestVerifC23Replay(t *testing.T) {
 			r.Sample(map[string]any{"part": "replay", "case": ci, "ops": ops, "final_version": vA.DebugString()})
 		}
 	})
+}
+
+// ---------------------------------------------------------------------------
+// Allocation guard.
+//
+// Decode allocates a declared length before reading it (readBytes:
+// make([]byte, n); blob references: make([]BlobReference, n)). A corrupt or
+// misparsed length of, say, 2^35 would make the process allocate (and, under
+// the race detector, touch) tens of GiB on a shared machine. The guard is a
+// pass-through byteReader that follows the varints Decode reads; when a
+// completed varint is (a) read from inside versionEditDecoder.readBytes, or (b)
+// the count that follows a blob-references custom tag, and lies in
+// (verifC23GuardLo, 2^49], it returns errVerifC23Skip instead of the final
+// byte, so Decode fails before allocating. Larger values are let through: they
+// exceed the runtime's maximum allocation and produce a recoverable panic.
+// Nothing else is altered.
+
+const (
+	verifC23GuardLenLo   = 1 << 12
+	verifC23GuardCountLo = 1 << 8
+	verifC23GuardHi      = 1 << 49
+)
+
+var errVerifC23Skip = errors.New("verif: guard refused an oversized length")
+
+type verifC23Guard struct {
+	r        *bytes.Reader
+	run      []byte    // bytes of the varint being read
+	hist     [2]uint64 // the two previously completed varints
+	tripped  uint64
+	// calibration mode, see verifC23CountSite
+	calibrate bool
+	calibLine int
+}
+
+func verifC23NewGuard(b []byte) *verifC23Guard { return &verifC23Guard{r: bytes.NewReader(b)} }
+
+func verifC23InReadBytes() bool {
+	var pcs [16]uintptr
+	n := runtime.Callers(2, pcs[:])
+	fr := runtime.CallersFrames(pcs[:n])
+	for {
+		f, more := fr.Next()
+		if strings.HasSuffix(f.Function, "versionEditDecoder.readBytes") {
+			return true
+		}
+		if !more {
+			return false
+		}
+	}
+}
+
+// verifC23DecodeLine returns the source line inside (*VersionEdit).Decode from
+// which the current read originates.
+func verifC23DecodeLine() (int, bool) {
+	var pcs [16]uintptr
+	n := runtime.Callers(2, pcs[:])
+	fr := runtime.CallersFrames(pcs[:n])
+	for {
+		f, more := fr.Next()
+		if strings.HasSuffix(f.Function, "(*VersionEdit).Decode") {
+			return f.Line, true
+		}
+		if !more {
+			return 0, false
+		}
+	}
+}
+
+const verifC23CalibMarker = 0x5A5A5
+
+// verifC23CountSite is the line of Decode that reads the blob-reference count
+// (the varint that sizes make([]BlobReference, n)); it is found at run time by
+// decoding a crafted input whose count is verifC23CalibMarker, so it follows
+// the binary under test (mutants included).
+var verifC23CountSite = sync.OnceValue(func() int {
+	in := []byte{tagNewFile4, 0, 1, 1, 0, 0, 0, 0, customTagBlobReferences, 1}
+	in = binary.AppendUvarint(in, verifC23CalibMarker)
+	g := &verifC23Guard{r: bytes.NewReader(in), calibrate: true}
+	var ve VersionEdit
+	_ = verifC23Catch(func() { _ = ve.Decode(g) })
+	return g.calibLine
+})
+
+func (g *verifC23Guard) ReadByte() (byte, error) {
+	b, err := g.r.ReadByte()
+	if err != nil {
+		g.run = g.run[:0]
+		return b, err
+	}
+	g.run = append(g.run, b)
+	if b >= 0x80 && len(g.run) < 12 {
+		return b, nil
+	}
+	v, _ := binary.Uvarint(g.run)
+	// If the previous ReadByte was the bounds marker (a single raw byte) with
+	// its high bit set, the real varint starts one byte later.
+	v2 := v
+	if len(g.run) > 1 {
+		v2, _ = binary.Uvarint(g.run[1:])
+	}
+	g.run = g.run[:0]
+	if g.calibrate {
+		if v == verifC23CalibMarker {
+			g.calibLine, _ = verifC23DecodeLine()
+			return 0, errVerifC23Skip
+		}
+		return b, nil
+	}
+	dangerLen := func(x uint64) bool { return x > verifC23GuardLenLo && x <= verifC23GuardHi }
+	if dangerLen(v) || dangerLen(v2) {
+		if verifC23InReadBytes() {
+			g.tripped = v
+			_ = g.r.UnreadByte()
+			return 0, errVerifC23Skip
+		}
+	}
+	if v > verifC23GuardCountLo && v <= verifC23GuardHi {
+		site := verifC23CountSite()
+		isCount := false
+		if site != 0 {
+			line, ok := verifC23DecodeLine()
+			isCount = ok && line == site
+		} else {
+			// calibration failed: fall back to "two varints after a blob-references tag"
+			isCount = g.hist[0] == customTagBlobReferences || g.hist[0] == customTagBlobReferences2
+		}
+		if isCount {
+			g.tripped = v
+			_ = g.r.UnreadByte()
+			return 0, errVerifC23Skip
+		}
+	}
+	g.hist[0], g.hist[1] = g.hist[1], v
+	return b, nil
+}
+
+func (g *verifC23Guard) Read(p []byte) (int, error) {
+	g.run = g.run[:0]
+	g.hist = [2]uint64{}
+	return g.r.Read(p)
+}
+
+// ---------------------------------------------------------------------------
+// (c) arbitrary bytes.
+
+var verifC23AllTags = []uint64{tagComparator, tagLogNumber, tagNextFileNumber, tagLastSequence, tagCompactPointer, tagDeletedFile, tagNewFile,
+	8, tagPrevLogNumber, tagExciseBoundsRecord, tagTableMarkedForCompaction, tagNewFile2, 101, tagNewFile3, tagNewFile4, tagNewFile5,
+	tagCreatedBackingTable, tagRemovedBackingTable, tagNewBlobFile, tagDeletedBlobFile, 109, tagColumnFamily, tagColumnFamilyAdd, tagColumnFamilyDrop, tagMaxColumnFamily}
+var verifC23CustomTags = []uint64{customTagTerminate, customTagNeedsCompaction, 3, customTagCreationTime, customTagNoRangeKeySets, 63, 64,
+	customTagPathID, customTagVirtual, customTagSyntheticPrefix, customTagSyntheticSuffix, customTagBlobReferences, customTagBlobReferences2, 71}
+
+func verifC23AppendUvarint(b []byte, v uint64) []byte { return binary.AppendUvarint(b, v) }
+
+func verifC23SoupValue(rng *rand.Rand) uint64 {
+	switch rng.IntN(8) {
+	case 0:
+		return verifC23AllTags[rng.IntN(len(verifC23AllTags))]
+	case 1:
+		return verifC23CustomTags[rng.IntN(len(verifC23CustomTags))]
+	case 2:
+		return verifC23U64(rng)
+	case 3:
+		return uint64(rng.IntN(NumLevels + 2))
+	default:
+		return uint64(rng.IntN(24))
+	}
+}
+
+var verifC23Strategies = []string{"random", "soup", "bitflip", "byteset", "truncate", "splice", "insert", "delete", "tagswap", "concat", "hugevarint", "unmutated", "structured"}
+
+// verifC23Mutate derives one input from the seed corpus.
+func verifC23Mutate(rng *rand.Rand, seeds [][]byte) (in []byte, strategy string) {
+	si := rng.IntN(len(verifC23Strategies))
+	strategy = verifC23Strategies[si]
+	seed := func() []byte { return slices.Clone(seeds[rng.IntN(len(seeds))]) }
+	switch strategy {
+	case "random":
+		in = make([]byte, rng.IntN(48))
+		for i := range in {
+			in[i] = byte(rng.IntN(256))
+		}
+		if len(in) > 0 && rng.IntN(2) == 0 {
+			in[0] = byte(verifC23AllTags[rng.IntN(len(verifC23AllTags))])
+		}
+	case "soup":
+		for i, n := 0, 1+rng.IntN(40); i < n; i++ {
+			in = verifC23AppendUvarint(in, verifC23SoupValue(rng))
+		}
+	case "structured": // a tag followed by plausible fields: reaches deep into new-file parsing
+		for k, nk := 0, 1+rng.IntN(3); k < nk; k++ {
+			tag := []uint64{tagNewFile, tagNewFile2, tagNewFile3, tagNewFile4, tagNewFile5, tagNewFile4, tagNewFile5}[rng.IntN(7)]
+			in = verifC23AppendUvarint(in, tag)
+			in = verifC23AppendUvarint(in, uint64(rng.IntN(NumLevels)))
+			in = verifC23AppendUvarint(in, verifC23SoupValue(rng))
+			if tag == tagNewFile3 {
+				in = verifC23AppendUvarint(in, verifC23SoupValue(rng))
+			}
+			in = verifC23AppendUvarint(in, verifC23SoupValue(rng))
+			key := func() {
+				k := verifC23Bytes(rng, 0, 14)
+				in = verifC23AppendUvarint(in, uint64(len(k)))
+				in = append(in, k...)
+			}
+			if tag == tagNewFile5 {
+				mk := byte(rng.IntN(8))
+				if rng.IntN(8) == 0 {
+					mk = byte(rng.IntN(256))
+				}
+				in = append(in, mk)
+				if mk&1 != 0 {
+					key()
+					key()
+				}
+			}
+			key()
+			key()
+			if tag != tagNewFile {
+				in = verifC23AppendUvarint(in, verifC23SoupValue(rng))
+				in = verifC23AppendUvarint(in, verifC23SoupValue(rng))
+			}
+			if tag == tagNewFile4 || tag == tagNewFile5 {
+				for c, nc := 0, rng.IntN(5); c < nc; c++ {
+					ct := verifC23CustomTags[rng.IntN(len(verifC23CustomTags))]
+					in = verifC23AppendUvarint(in, ct)
+					switch {
+					case ct == customTagTerminate:
+					case ct == customTagVirtual:
+						in = verifC23AppendUvarint(in, verifC23SoupValue(rng))
+					case ct == customTagBlobReferences || ct == customTagBlobReferences2:
+						in = verifC23AppendUvarint(in, verifC23SoupValue(rng))
+						nr := rng.IntN(4)
+						if rng.IntN(6) == 0 {
+							nr = int(verifC23SoupValue(rng) % 64)
+						}
+						in = verifC23AppendUvarint(in, uint64(nr))
+						for x := 0; x < nr*2+rng.IntN(3); x++ {
+							in = verifC23AppendUvarint(in, verifC23SoupValue(rng))
+						}
+					default:
+						key()
+					}
+				}
+				if rng.IntN(4) != 0 {
+					in = verifC23AppendUvarint(in, customTagTerminate)
+				}
+			}
+		}
+	case "bitflip":
+		in = seed()
+		for i, n := 0, 1+rng.IntN(4); i < n && len(in) > 0; i++ {
+			in[rng.IntN(len(in))] ^= 1 << uint(rng.IntN(8))
+		}
+	case "byteset":
+		in = seed()
+		for i, n := 0, 1+rng.IntN(3); i < n && len(in) > 0; i++ {
+			in[rng.IntN(len(in))] = []byte{0, 1, 0x7f, 0x80, 0xff, byte(rng.IntN(256))}[rng.IntN(6)]
+		}
+	case "truncate":
+		in = seed()
+		if len(in) > 0 {
+			in = in[:rng.IntN(len(in))]
+		}
+	case "splice":
+		a, b := seed(), seed()
+		in = append(a[:rng.IntN(len(a)+1)], b[rng.IntN(len(b)+1):]...)
+	case "insert":
+		in = seed()
+		at := rng.IntN(len(in) + 1)
+		var ins []byte
+		if rng.IntN(2) == 0 {
+			ins = verifC23AppendUvarint(nil, verifC23SoupValue(rng))
+		} else {
+			ins = verifC23Bytes(rng, 1, 6)
+		}
+		in = slices.Insert(in, at, ins...)
+	case "delete":
+		in = seed()
+		if len(in) > 1 {
+			a := rng.IntN(len(in))
+			b := min(len(in), a+1+rng.IntN(8))
+			in = slices.Delete(in, a, b)
+		}
+	case "tagswap":
+		in = seed()
+		if len(in) > 0 {
+			for try := 0; try < 20; try++ {
+				i := rng.IntN(len(in))
+				if slices.Contains(verifC23AllTags, uint64(in[i])) || slices.Contains(verifC23CustomTags, uint64(in[i])) {
+					if rng.IntN(2) == 0 {
+						in[i] = byte(verifC23AllTags[rng.IntN(len(verifC23AllTags))])
+					} else {
+						in[i] = byte(verifC23CustomTags[rng.IntN(len(verifC23CustomTags))])
+					}
+					break
+				}
+			}
+		}
+	case "concat":
+		in = append(seed(), seed()...)
+	case "hugevarint":
+		in = seed()
+		at := rng.IntN(len(in) + 1)
+		huge := verifC23AppendUvarint(nil, []uint64{1 << 49, 1<<49 + 1, 1 << 56, 1 << 62, 1 << 63, 1<<64 - 1, 1<<63 - 1}[rng.IntN(7)])
+		if rng.IntN(2) == 0 && at < len(in) {
+			in = append(in[:at], append(huge, in[at+1:]...)...) // replace one byte
+		} else {
+			in = slices.Insert(in, at, huge...)
+		}
+	default: // unmutated
+		in = seed()
+	}
+	return in, strategy
+}
+
+var verifC23DigitsRe = regexp.MustCompile(`[0-9]+`)
+
+// verifC23TagsOfDecoded summarises which record kinds a decoded edit holds.
+func verifC23TagsOfDecoded(ve *VersionEdit) string {
+	var t []string
+	add := func(c bool, s string) {
+		if c {
+			t = append(t, s)
+		}
+	}
+	add(ve.ComparerName != "", "cmp")
+	add(ve.MinUnflushedLogNum != 0, "log")
+	add(ve.ObsoletePrevLogNum != 0, "prevlog")
+	add(ve.NextFileNum != 0, "next")
+	add(ve.LastSeqNum != 0, "lastseq")
+	add(len(ve.DeletedTables) > 0, "del")
+	for _, nt := range ve.NewTables {
+		s := "new"
+		if nt.Meta.Virtual {
+			s += "V"
+		}
+		if nt.Meta.HasRangeKeys {
+			s += "R"
+		}
+		if nt.Meta.HasPointKeys {
+			s += "P"
+		}
+		if len(nt.Meta.BlobReferences) > 0 {
+			s += "B"
+		}
+		if !slices.Contains(t, s) {
+			t = append(t, s)
+		}
+	}
+	add(len(ve.CreatedBackingTables) > 0, "backing+")
+	add(len(ve.RemovedBackingTables) > 0, "backing-")
+	add(len(ve.NewBlobFiles) > 0, "blob+")
+	add(len(ve.DeletedBlobFiles) > 0, "blob-")
+	add(len(ve.ExciseBoundsRecord) > 0, "excise")
+	add(len(ve.TablesMarkedForCompaction) > 0, "mark")
+	return strings.Join(t, "+")
+}
+
+// verifC23ExplainMismatch attributes differing canonical lines of a decoded
+// edit e1 to states that Decode accepts but Encode cannot represent:
+// synthetic prefix/suffix or BackingValueSize on a non-virtual table (the
+// encoder only writes them for virtual tables / inside the custom-field
+// section) and a blob reference depth without references. Lines that are not
+// explained this way are returned in unexplained.
+func verifC23ExplainMismatch(e1 *VersionEdit, want, got []string) (trigger, unexplained string) {
+	trig, un := map[string]struct{}{}, map[string]struct{}{}
+	re := regexp.MustCompile(`^new\[(\d+)\]\.([a-z]+)`)
+	for i := 0; i < max(len(want), len(got)); i++ {
+		var x, y string
+		if i < len(want) {
+			x = want[i]
+		}
+		if i < len(got) {
+			y = got[i]
+		}
+		if x == y {
+			continue
+		}
+		k := x
+		if k == "" {
+			k = y
+		}
+		explained := false
+		if m := re.FindStringSubmatch(k); m != nil {
+			var idx int
+			fmt.Sscan(m[1], &idx)
+			if idx < len(e1.NewTables) {
+				t := e1.NewTables[idx].Meta
+				hasBVS := false
+				for _, r := range t.BlobReferences {
+					hasBVS = hasBVS || r.BackingValueSize > 0
+				}
+				switch {
+				case (m[2] == "prefix" || m[2] == "suffix") && !t.Virtual:
+					trig["physical-synthetic"], explained = struct{}{}, true
+				case m[2] == "blobref" && !t.Virtual && hasBVS:
+					trig["physical-backingvaluesize"], explained = struct{}{}, true
+				case m[2] == "blobdepth" && len(t.BlobReferences) == 0 && t.BlobReferenceDepth != 0:
+					trig["depth-without-refs"], explained = struct{}{}, true
+				}
+			}
+		}
+		if !explained {
+			if j := strings.IndexByte(k, '='); j >= 0 {
+				k = k[:j]
+			}
+			un[verifC23IdxRe.ReplaceAllString(k, "")] = struct{}{}
+		}
+	}
+	join := func(m map[string]struct{}) string {
+		var l []string
+		for k := range m {
+			l = append(l, k)
+		}
+		sort.Strings(l)
+		return strings.Join(l, ",")
+	}
+	return join(trig), join(un)
+}
+
+type verifC23DecodeOutcome struct {
+	ve      *VersionEdit
+	err     error
+	panicV  string
+	skipped bool
+}
+
+func verifC23GuardedDecode(in []byte) (o verifC23DecodeOutcome) {
+	g := verifC23NewGuard(in)
+	ve := &VersionEdit{}
+	o.panicV = verifC23Catch(func() { o.err = ve.Decode(g) })
+	if o.panicV == "" && o.err == nil {
+		o.ve = ve
+	}
+	if errors.Is(o.err, errVerifC23Skip) {
+		o.skipped = true
+	}
+	return o
+}
+
+// verifC23Minimize shrinks in while pred keeps holding.
+func verifC23Minimize(in []byte, pred func([]byte) bool) []byte {
+	cur := slices.Clone(in)
+	for budget := 0; budget < 2000; {
+		changed := false
+		for n := len(cur) / 2; n >= 1; n /= 2 {
+			for at := 0; at+n <= len(cur); {
+				budget++
+				c := slices.Delete(slices.Clone(cur), at, at+n)
+				if pred(c) {
+					cur, changed = c, true
+				} else {
+					at += n
+				}
+			}
+		}
+		if !changed {
+			break
+		}
+	}
+	return cur
+}
+
+func TestVerifC23Fuzz(t *testing.T) {
+	r := vcommon.NewReport("C23", "fuzz")
+	defer r.Finish(t)
+	r.Rule("fuzz: each case builds a corpus of 6 valid encodings and derives 64 byte strings from it (random bytes, varint soup, structured new-file soup, " +
+		"bit flips, byte sets, truncation, splice, insert, delete, tag swap, concatenation, huge varints, unmutated); distinct = distinct behaviour signature " +
+		"(strategy, outcome, error kind with numbers removed, record kinds of the decoded edit); non-trivial = non-empty input that was executed (not skipped by the allocation guard)")
+	r.Assume("length prefixes and blob-reference counts in (2^12 resp. 2^8, 2^49] are not executed: Decode allocates the declared size before reading; such inputs are counted in fuzz_skipped_by_guard")
+	n := vcommon.Scale(2400, 64000)
+	const perCase = 64
+	panicsSeen := map[string]int{}
+	mismatchSeen := map[string]int{}
+	r.Cases(n, func(ci int, rng *rand.Rand) {
+		var seeds [][]byte
+		g := verifC23NewGen(rng)
+		for len(seeds) < 6 {
+			var ve *VersionEdit
+			if len(seeds)%2 == 0 {
+				ve = verifC23WildEdit(rng, true, false)
+			} else {
+				ve, _ = g.next(len(seeds) == 1)
+			}
+			var buf bytes.Buffer
+			if err := ve.Encode(&buf); err != nil || buf.Len() == 0 {
+				if err != nil {
+					r.Violate("encode-error", fmt.Sprintf("seed edit: %v", err), map[string]any{"edit": ve.DebugString(base.DefaultFormatter)}, nil)
+				}
+				seeds = append(seeds, []byte{tagNextFileNumber, 7})
+				continue
+			}
+			seeds = append(seeds, slices.Clone(buf.Bytes()))
+		}
+		for j := 0; j < perCase; j++ {
+			in, strategy := verifC23Mutate(rng, seeds)
+			if len(in) > 4096 {
+				in = in[:4096]
+			}
+			r.BeginCase(fmt.Sprintf("%d/%d %s %s", ci, j, strategy, hex.EncodeToString(in)))
+			r.Eval(1)
+			r.Count("fuzz_inputs", 1)
+			r.Count("fuzz_input_bytes", int64(len(in)))
+			o := verifC23GuardedDecode(in)
+			replay := func(extra map[string]any) map[string]any {
+				m := map[string]any{"case": fmt.Sprintf("%d/%d", ci, j), "strategy": strategy, "input_hex": hex.EncodeToString(in)}
+				for k, v := range extra {
+					m[k] = v
+				}
+				return m
+			}
+			switch {
+			case o.panicV != "":
+				r.Count("fuzz_decode_panics", 1)
+				msg := verifC23DigitsRe.ReplaceAllString(o.panicV, "N")
+				panicsSeen[msg]++
+				if panicsSeen[msg] <= 2 {
+					small := verifC23Minimize(in, func(c []byte) bool {
+						oc := verifC23GuardedDecode(c)
+						return oc.panicV != "" && verifC23DigitsRe.ReplaceAllString(oc.panicV, "N") == msg
+					})
+					r.Violate("decode-panic", fmt.Sprintf("VersionEdit.Decode panicked on %d input bytes (minimised to %d: %x): %s", len(in), len(small), small, o.panicV),
+						replay(map[string]any{"minimal_input_hex": hex.EncodeToString(small), "panic": o.panicV}), map[string]any{"panic": msg})
+				}
+				r.Distinct("fz", strategy, "panic", msg)
+				continue
+			case o.skipped:
+				r.Count("fuzz_skipped_by_guard", 1)
+				continue
+			case o.err != nil:
+				r.Count("fuzz_decode_errors", 1)
+				kind := verifC23DigitsRe.ReplaceAllString(o.err.Error(), "N")
+				if len(kind) > 60 {
+					kind = kind[:60]
+				}
+				r.SetAdd("fuzz_error_kinds", kind)
+				if len(in) > 0 {
+					r.Distinct("fz", strategy, "err", kind)
+				}
+				continue
+			}
+			// Decode succeeded with e': Decode(Encode(e')) must equal e'.
+			r.Count("fuzz_decode_ok", 1)
+			e1 := o.ve
+			sig := verifC23TagsOfDecoded(e1)
+			if len(in) > 0 {
+				r.Distinct("fz", strategy, "ok", sig)
+			}
+			r.SetAdd("fuzz_decoded_record_kinds", sig)
+			c1 := verifC23CanonEdit(e1)
+			verifC23AttachBackings(e1, nil, false)
+			var buf bytes.Buffer
+			var err error
+			if p := verifC23Catch(func() { err = e1.Encode(&buf) }); p != "" || err != nil {
+				cls := "reencode-error"
+				if p != "" {
+					cls = "reencode-panic"
+				}
+				key := cls + verifC23DigitsRe.ReplaceAllString(p+fmt.Sprint(err), "N")
+				mismatchSeen[key]++
+				if mismatchSeen[key] <= 2 {
+					r.Violate(cls, fmt.Sprintf("Decode accepted the input but Encode of the result failed: panic=%q err=%v", p, err), replay(map[string]any{"decoded": c1}),
+						map[string]any{"panic": verifC23DigitsRe.ReplaceAllString(p, "N"), "error": verifC23DigitsRe.ReplaceAllString(fmt.Sprint(err), "N")})
+				}
+				continue
+			}
+			enc := slices.Clone(buf.Bytes())
+			o2 := verifC23GuardedDecode(enc)
+			if o2.ve == nil {
+				key := "redecode" + verifC23DigitsRe.ReplaceAllString(o2.panicV+fmt.Sprint(o2.err), "N")
+				mismatchSeen[key]++
+				if mismatchSeen[key] <= 2 {
+					r.Violate("redecode-error", fmt.Sprintf("Decode(Encode(e')) failed for e'=Decode(input): panic=%q err=%v", o2.panicV, o2.err),
+						replay(map[string]any{"decoded": c1, "reencoded_hex": hex.EncodeToString(enc)}),
+						map[string]any{"error": verifC23DigitsRe.ReplaceAllString(o2.panicV+fmt.Sprint(o2.err), "N"), "trigger": verifC23KnownTrigger(e1)})
+				}
+				r.Count("fuzz_reencode_failures", 1)
+				continue
+			}
+			c2 := verifC23CanonEdit(o2.ve)
+			if lines, fields := verifC23Diff(c1, c2); len(lines) > 0 {
+				r.Count("fuzz_reencode_mismatches", 1)
+				trigger, unexplained := verifC23ExplainMismatch(e1, c1, c2)
+				r.Count("fuzz_reencode_mismatches:"+trigger, 1)
+				mismatchSeen[trigger+"|"+unexplained]++
+				if mismatchSeen[trigger+"|"+unexplained] <= 2 {
+					small := verifC23Minimize(in, func(c []byte) bool {
+						oc := verifC23GuardedDecode(c)
+						if oc.ve == nil {
+							return false
+						}
+						a := verifC23CanonEdit(oc.ve)
+						verifC23AttachBackings(oc.ve, nil, false)
+						var b bytes.Buffer
+						if p := verifC23Catch(func() { err = oc.ve.Encode(&b) }); p != "" || err != nil {
+							return false
+						}
+						od := verifC23GuardedDecode(b.Bytes())
+						if od.ve == nil {
+							return false
+						}
+						cd := verifC23CanonEdit(od.ve)
+						_, f := verifC23Diff(a, cd)
+						tr, un := verifC23ExplainMismatch(oc.ve, a, cd)
+						return f != "" && tr == trigger && un == unexplained
+					})
+					r.Violate("fuzz-reencode-mismatch", fmt.Sprintf("Decode accepted the input (minimised: %x) but Decode(Encode(e')) != e': %s", small, strings.Join(lines, "; ")),
+						replay(map[string]any{"minimal_input_hex": hex.EncodeToString(small), "decoded": c1, "redecoded": c2, "reencoded_hex": hex.EncodeToString(enc)}),
+						map[string]any{"fields": fields, "trigger": trigger, "unexplained_fields": unexplained})
+				}
+				continue
+			}
+			// DebugString must not panic on what Decode produced and must be stable.
+			var d1, d2 string
+			if p := verifC23Catch(func() {
+				d1 = e1.DebugString(base.DefaultFormatter)
+				verifC23AttachBackings(o2.ve, nil, false)
+				d2 = o2.ve.DebugString(base.DefaultFormatter)
+			}); p != "" {
+				key := "dbg" + verifC23DigitsRe.ReplaceAllString(p, "N")
+				mismatchSeen[key]++
+				if mismatchSeen[key] <= 2 {
+					r.Violate("debugstring-panic", "DebugString of a decoded edit panicked: "+p, replay(map[string]any{"decoded": c1}), map[string]any{"panic": verifC23DigitsRe.ReplaceAllString(p, "N")})
+				}
+				continue
+			}
+			if d1 != d2 {
+				mismatchSeen["dbgdiff"]++
+				if mismatchSeen["dbgdiff"] <= 2 {
+					r.Violate("debugstring-mismatch", "DebugString differs between e' and Decode(Encode(e'))", replay(map[string]any{"want": d1, "got": d2}), nil)
+				}
+				continue
+			}
+			r.Count("fuzz_roundtrip_ok", 1)
+			if r.WantSample() && strategy != "unmutated" && strategy != "concat" && len(e1.NewTables) > 0 {
+				r.Sample(map[string]any{"part": "fuzz", "case": fmt.Sprintf("%d/%d", ci, j), "strategy": strategy, "input_hex": hex.EncodeToString(in), "decoded": d1})
+			}
+		}
+	})
+	for msg, c := range panicsSeen {
+		r.Note("decode panic %q seen %d time(s) in this shard", msg, c)
+	}
 }
